@@ -20,10 +20,35 @@ impl Outcome {
             Outcome::Panic(_) => "panic",
         }
     }
+    /// Outcome with machine-generated `@`-symbols (fresh-name counters) masked.
+    pub fn norm(&self) -> Outcome {
+        fn mask(s: &str) -> String {
+            let mut out = String::new();
+            let mut chars = s.chars().peekable();
+            while let Some(c) = chars.next() {
+                out.push(c);
+                if c == '@' {
+                    while let Some(n) = chars.peek() {
+                        if n.is_alphanumeric() || *n == '_' {
+                            chars.next();
+                        } else {
+                            break;
+                        }
+                    }
+                }
+            }
+            out
+        }
+        match self {
+            Outcome::Ok(v) => Outcome::Ok(v.iter().map(|x| mask(x)).collect()),
+            Outcome::Err(e) => Outcome::Err(mask(e)),
+            Outcome::Panic(e) => Outcome::Panic(mask(e)),
+        }
+    }
     pub fn short(&self) -> String {
         match self {
             Outcome::Ok(v) => format!("ok:{}", v.join("")),
-            Outcome::Err(e) => format!("err:{}", e.lines().next().unwrap_or("")),
+            Outcome::Err(e) => format!("err:{}", e.replace('\n', " // ")),
             Outcome::Panic(e) => format!("panic:{e}"),
         }
     }
@@ -91,4 +116,20 @@ pub fn check(eg: &mut EGraph, facts: &str) -> Result<bool, String> {
         Outcome::Err(e) => Err(e),
         Outcome::Panic(p) => Err(format!("panic: {p}")),
     }
+}
+
+/// Run and project the outputs onto what is stable across thread counts and
+/// encodings (check outcome, sizes, extraction cost): upstream's own
+/// `snapshot_stable_under_proof_encoding`.
+pub fn run_stable(eg: &mut EGraph, text: &str) -> Outcome {
+    match run_raw(eg, text) {
+        Ok(outs) => Outcome::Ok(vec![CommandOutput::snapshot_stable_under_proof_encoding(&outs)]),
+        Err(o) => o,
+    }
+}
+
+/// Full outputs when single-threaded (deterministic by C20), stable projection otherwise
+/// (row order of print-function and tie-breaking in extract may depend on scheduling).
+pub fn run_for_compare(eg: &mut EGraph, text: &str, threads: usize) -> Outcome {
+    if threads <= 1 { run(eg, text) } else { run_stable(eg, text) }
 }
